@@ -239,6 +239,24 @@ inductive Stored where
   | many (vs : List Val)
 deriving DecidableEq, Repr, Inhabited
 
+/-- `[f(x) for x in xs]` where `f` may raise: the first error wins -/
+def mapRes {α β : Type} (f : α → Res β) : List α → Res (List β)
+  | [] => .ok []
+  | x :: xs =>
+    match f x with
+    | .error e => .error e
+    | .ok y =>
+      match mapRes f xs with
+      | .error e => .error e
+      | .ok ys => .ok (y :: ys)
+
+def mapOpt {α β : Type} (f : α → Option β) : List α → Option (List β)
+  | [] => some []
+  | x :: xs =>
+    match f x, mapOpt f xs with
+    | some y, some ys => some (y :: ys)
+    | _, _ => none
+
 /-! ## Constructors of the value classes -/
 
 def kVALUE : Str := "VALUE".toList
@@ -357,10 +375,13 @@ def listParams (vs : List Val) : Params :=
 def listText (vs : List Val) : Str :=
   if vs.any (fun v => v.text == toIcalError) then toIcalError else joinWith [','] (vs.map (·.text))
 
-def mkDDDLists (a : PyArg) : Res Val := do
-  let xs ← listElems a
-  let vs ← xs.mapM mkDDD
-  pure ⟨cDDDLists, listText vs, listParams vs⟩
+def mkDDDLists (a : PyArg) : Res Val :=
+  match listElems a with
+  | .error e => .error e
+  | .ok xs =>
+    match mapRes mkDDD xs with
+    | .error e => .error e
+    | .ok vs => .ok ⟨cDDDLists, listText vs, listParams vs⟩
 
 def isAscii (s : Str) : Bool := s.all (fun c => c.toNat < 128)
 
@@ -419,7 +440,7 @@ def construct (cls : Str) : PyArg → Res Val
   | .list xs =>
     if cls == cDDDLists then mkDDDLists (.list xs)
     else if cls == cCategory then
-      match xs.mapM pyStr with
+      match mapOpt pyStr xs with
       | some ss => .ok ⟨cls, catsToIcal ss, []⟩
       | none => .error .unmodelled
     else if cls == cDDD || cls == cUTCOffset || cls == cGeo then .error .valueError
@@ -446,19 +467,22 @@ def keptTyped : PyVal → Option Val
   | _ => none
 
 /-- `Component._encode(name, value, parameters, encode=1)` for one object -/
-def encodeOne (name : Str) (v : PyVal) (upd : List (Str × Option PVal)) : Res Val := do
-  let obj ← match keptTyped v with
-    | some o => pure o
-    | none => construct1 (forProperty name) v
-  pure { obj with params := mergeParams obj.params upd }
+def encodeOne (name : Str) (v : PyVal) (upd : List (Str × Option PVal)) : Res Val :=
+  match keptTyped v with
+  | some o => .ok { o with params := mergeParams o.params upd }
+  | none =>
+    match construct1 (forProperty name) v with
+    | .ok o => .ok { o with params := mergeParams o.params upd }
+    | .error e => .error e
 
 /-- `_encode` of a whole list (the names of `Gen.addListNames`) -/
 def encodeWhole (name : Str) (a : PyArg) (upd : List (Str × Option PVal)) : Res Val :=
   match a with
   | .one v => encodeOne name v upd
-  | .list xs => do
-    let obj ← construct (forProperty name) (.list xs)
-    pure { obj with params := mergeParams obj.params upd }
+  | .list xs =>
+    match construct (forProperty name) (.list xs) with
+    | .ok o => .ok { o with params := mergeParams o.params upd }
+    | .error e => .error e
 
 /-- `tzp.localize_utc(value)` -/
 def DT.toUtc (t : DT) : DT := ⟨t.utcWall, some UTC, t.utcWall⟩
@@ -474,7 +498,7 @@ def addValue (name : Str) (a : PyArg) (upd : List (Str × Option PVal)) : Res St
   match forceUtc name a with
   | .list xs =>
     if Gen.addListNames.contains (lower name) then (encodeWhole name (.list xs) upd).map .one
-    else (xs.mapM (fun v => encodeOne name v upd)).map .many
+    else (mapRes (fun v => encodeOne name v upd) xs).map .many
   | .one v => (encodeOne name v upd).map .one
 
 /-! ## The property mapping -/
